@@ -135,7 +135,7 @@ func gen(r *hlib.Rand, n int, tier, profile string, emit func(string, ...any)) {
 	cfgs := [][2]int{{2, 2}}
 	if tier == "thorough" {
 		maxB, maxS = 4, 3
-		cfgs = [][2]int{{2, 2}, {128, 63}, {3, 3}}
+		cfgs = [][2]int{{2, 2}, hlib.Pick(r, [2]int{128, 63}, [2]int{3, 3}, [2]int{3, 2}, [2]int{4, 127})}
 	}
 	var batches [][]pkt
 	var rec func(cur []pkt)
@@ -170,10 +170,10 @@ func gen(r *hlib.Rand, n int, tier, profile string, emit func(string, ...any)) {
 	}
 	// ---- random
 	for i := 0; i < n; i++ {
-		scratch := hlib.Pick(r, 1, 2, 3, 4, 8, 16, 128, 128, 128)
-		maxSeg := hlib.Pick(r, 0, 1, 2, 3, 4, 63, 63, 127, -1)
+		scratch := hlib.Pick(r, 1, 2, 3, 4, 8, 16, 128, 128, 128, 128)
+		maxSeg := hlib.Pick(r, 0, 1, 2, 2, 3, 4, 63, 63, 63, 127, -1)
 		isV4 := !r.Chance(1, 5)
-		gso := !r.Chance(1, 5)
+		gso := !r.Chance(1, 7)
 		maxPk := hlib.Pick(r, 4, 8, 12, 24, 24, 140)
 		if tier == "thorough" && r.Chance(1, 20) {
 			maxPk = 300
